@@ -138,9 +138,12 @@ EXTRA = {
     "C12": " Also: closures that outlive their maker never write captured variables; no memoised one-shot objects; memoised renderers only of exact-equality parameters.",
     "C13": " Also: every named constructor parameter yields a signature hint (guards on parameter kinds evaluated on the IntEnum order); a result rebuilt from attributes of the input reads a set that determines the class (Pattern: pattern+flags).",
     "C14": " Also: a Literal text member is matched on the decoded text of every carrier before the loader may re-type it; memoryview decoded from its own bytes.",
-    "C16": " Also: the unwrap rules (R11.1) and the forwardref naming rules (R11.7) are shared in, since the lookup keys are built by them.",
-    "C17": " Also: a raw-membership table lists a typing alias together with its runtime origin; qualname()/name() name a class by its own qualified name and cut text only for typing forms; origin() interpreted on the catalogue.",
-    "C19": " Also: nothing reaches __slots__ outside the inherited-slots filter; the pickle-hook guard is checked as a truth table over {user __getstate__, user __setstate__, frozen}.",
+    "C16": " Also: the unwrap rules (R11.1) and the forwardref naming rules (R11.7) are shared in, since the lookup keys are built by them; the reference consulted last is built from the queried key itself (R16.8).",
+    "C17": " Also: a raw-membership table lists a typing alias together with its runtime origin; qualname()/name() name a class by its own qualified name and cut text only for typing forms; origin() interpreted on the catalogue (Callable forms included) and peeling nested wrappers to a fixpoint (R17.13).",
+    "C10": " Also: no binder pairs all positional arguments off with a stored sequence through a truncating zip (a rejected call stays rejected).",
+    "C15": " Also: a TypeVar attribute other than bound/constraints is handed out only behind the NoDefault sentinel; constant indexing of type arguments only under a non-emptiness fact; every call of a package function, class or inspectable builtin in the anchor files binds its arguments (R<nn>.0 calls-bind, all properties).",
+    "C18": " Also: an iterable of pairs is iterated as it is, anything else goes through exactly one strategy.",
+    "C19": " Also: nothing reaches __slots__ outside the inherited-slots filter; the bases' layout is asked of any base; the class's own annotations are read with a default; the pickle hook restores (name, value) entries; a member is handed back unchanged only when every cell is; the pickle-hook guard is checked as a truth table over {user __getstate__, user __setstate__, frozen}.",
 }
 for _k, _v in EXTRA.items():
     META[_k]["text"] = META[_k]["text"] + _v
